@@ -250,6 +250,81 @@ pub fn run_c16(a: &Args) {
         ctx::count("gnp:unseeded-draws-checked");
         ctx::nontrivial(mix(this, 0x4e0));
     }
+    // ---- the sparse regime of small graphs: p from 1/(8 n^2) to 1/n, where single skips jump
+    // over many rows and regularly end on the last slots of the pair enumeration
+    let base4 = 40_000;
+    let sparse_seeds: u64 = if a.thorough { 60_000 } else { 4_000 };
+    let mut cfg4 = 0u64;
+    for n in 4..=16i32 {
+        for directed in [false, true] {
+            let this = base4 + cfg4;
+            cfg4 += 1;
+            if !ctx::mine(this) {
+                continue;
+            }
+            let kind = if directed { "directed" } else { "undirected" };
+            let nf = n as f64;
+            ctx::case_desc(json!({"fast_gnp_random_graph": {"n": n, "directed": directed, "p": "1/(8n^2) .. 1/n", "seeds_per_p": sparse_seeds}}));
+            'cfg: for p in [1.0 / (8.0 * nf * nf), 1.0 / (2.0 * nf * nf), 1.0 / (nf * nf), 1.0 / (4.0 * nf), 1.0 / nf] {
+                for s in 0..sparse_seeds {
+                    let seed = mix(a.seed ^ 0x5ba5, mix(this, s)) ^ p.to_bits();
+                    ctx::eval(1);
+                    match guard("fast_gnp_random_graph", || random::fast_gnp_random_graph(n, p, directed, Some(seed))) {
+                        Err(c) => {
+                            ctx::violation(&format!("C16|fast_gnp_random_graph|{}|{}", c.class(), kind), "fast_gnp_random_graph panicked for a valid p", json!({"n": n, "p": p, "seed": seed, "caught": c.json()}));
+                            break 'cfg;
+                        }
+                        Ok(Err(e)) => {
+                            ctx::violation(&format!("C16|fast_gnp_random_graph|error:{}|{}", err_name(&e.kind), kind), "fast_gnp_random_graph failed for a valid p", json!({"n": n, "p": p, "seed": seed, "message": e.message}));
+                            break 'cfg;
+                        }
+                        Ok(Ok(g)) => {
+                            if let Err((class, det)) = structure(&g, n, directed) {
+                                ctx::violation(&format!("C16|fast_gnp_random_graph|{}|{}", class, kind), "G(n,p) structure in the sparse regime", json!({"n": n, "p": p, "seed": seed, "detail": det}));
+                                break 'cfg;
+                            }
+                        }
+                    }
+                }
+            }
+            ctx::count("gnp:sparse-regime-configurations");
+            ctx::nontrivial(mix(this, 0x5ba5));
+        }
+    }
+    // ---- seeds whose first random words are extreme. Found once by scanning all seeds below
+    // 2^32 (ChaCha20Rng::seed_from_u64(seed), first two next_u32 words): the only ones with an
+    // all-zero or all-one word among the first two.
+    const EXTREME_SEEDS: [(u64, &str); 5] = [
+        (621649759, "second word 00000000"),
+        (1197075488, "second word 00000000"),
+        (1743399941, "first word ffffffff"),
+        (1804668985, "first word 00000000"),
+        (4036442990, "second word 00000000"),
+    ];
+    if ctx::mine(45_000) {
+        ctx::case_desc(json!({"fast_gnp_random_graph": "seeds with extreme first random words", "seeds": EXTREME_SEEDS.iter().map(|s| s.0).collect::<Vec<_>>()}));
+        for (seed, _) in EXTREME_SEEDS {
+            for n in [2i32, 3, 5, 10, 30, 300] {
+                for p in [1e-12, 1e-10, 2e-10, 1e-9, 1e-6, 0.01, 0.5, 0.999999] {
+                    for directed in [false, true] {
+                        let kind = if directed { "directed" } else { "undirected" };
+                        ctx::eval(1);
+                        match guard("fast_gnp_random_graph", || random::fast_gnp_random_graph(n, p, directed, Some(seed))) {
+                            Err(c) => ctx::violation(&format!("C16|fast_gnp_random_graph|{}|{}", c.class(), kind), "fast_gnp_random_graph panicked for a valid p", json!({"n": n, "p": p, "seed": seed, "caught": c.json()})),
+                            Ok(Err(e)) => ctx::violation(&format!("C16|fast_gnp_random_graph|error:{}|{}", err_name(&e.kind), kind), "fast_gnp_random_graph failed for a valid p", json!({"n": n, "p": p, "seed": seed, "message": e.message})),
+                            Ok(Ok(g)) => {
+                                if let Err((class, det)) = structure(&g, n, directed) {
+                                    ctx::violation(&format!("C16|fast_gnp_random_graph|{}|{}", class, kind), "G(n,p) structure for a seed with an extreme first random word", json!({"n": n, "p": p, "seed": seed, "detail": det}));
+                                }
+                            }
+                        }
+                    }
+                }
+            }
+        }
+        ctx::count("gnp:extreme-first-word-seeds");
+        ctx::nontrivial(0xE57);
+    }
     // ---- tiny probabilities over many seeds (arithmetic on huge skips)
     let base3 = 30_000;
     let tiny_seeds: u64 = if a.thorough { 100_000 } else { 20_000 };
@@ -348,7 +423,8 @@ fn c17_results(case_kind: u64, rng: &mut Rng, idx: u64) -> Vec<(&'static str, St
             if case.edges.is_empty() {
                 return out;
             }
-            let weighted = case.wclass.weighted() && (case_kind >= 6 || rng.coin());
+            let mut weighted = case.wclass.weighted() && (case_kind >= 6 || rng.coin());
+            let triple = case_kind < 6 && case.edges.len() >= 7 && rng.chance(1, 4);
             let gamma = *rng.pick(&[0.5, 1.0, 1.0, 1.5]);
             let threshold = *rng.pick(&[None, None, Some(0.0), Some(0.01)]);
             let seed = match rng.below(8) {
@@ -371,6 +447,24 @@ fn c17_results(case_kind: u64, rng: &mut Rng, idx: u64) -> Vec<(&'static str, St
                 }
                 ctx::count("reach:louvain-with-huge-dyadic-weights");
             }
+            if triple {
+                // a symmetric multigraph: every edge becomes three parallel edges weighing 0.1, 0.2
+                // and 0.3 in rotating order - their sum is 0.6 or 0.6000000000000001 depending on
+                // the order of addition, which insertion order fixes, and the many exact ties
+                // between candidate communities turn any change of a last bit into another partition
+                const PERMS: [[f64; 3]; 4] = [[0.1, 0.2, 0.3], [0.3, 0.2, 0.1], [0.2, 0.3, 0.1], [0.3, 0.1, 0.2]];
+                let mut e3 = vec![];
+                for (i, (u, v, _)) in case.edges.iter().enumerate() {
+                    for w in PERMS[i % 4] {
+                        e3.push((*u, *v, w));
+                    }
+                }
+                case.edges = e3;
+                case.specs.multi = true;
+                case.wclass = WClass::Generic;
+                weighted = true;
+                ctx::count("reach:louvain-on-multigraph-with-three-inexact-parallel-edges-per-pair");
+            }
             let desc = json!({"graph": case.json(), "weighted": weighted, "resolution": gamma, "seed": seed.to_string()});
             let g = case.build();
             graphrs::verif_hooks::set_budget("louvain_sweep", Some(200 + 20 * case.n() as u64));
@@ -388,7 +482,49 @@ fn c17_results(case_kind: u64, rng: &mut Rng, idx: u64) -> Vec<(&'static str, St
                 Ok(Err(e)) => format!("error:{}", err_name(&e.kind)),
                 Err(c) => format!("panic:{}", c.class()),
             };
-            out.push(("louvain_communities", canon2, desc));
+            out.push(("louvain_communities", canon2, desc.clone()));
+            // the same graph reached through other public construction paths: the seeded result
+            // on each of them must be reproducible too (every repetition rebuilds them)
+            let mut variants: Vec<(&'static str, GS)> = vec![];
+            {
+                // one batch of tuples with a repeated tuple, nodes created on the fly
+                let mut t: GS = graphrs::Graph::new(case.effective_specs().to_real());
+                let mut tuples: Vec<(String, String)> = case.edges.iter().map(|(u, v, _)| (case.names[*u].clone(), case.names[*v].clone())).collect();
+                if let Some(first) = tuples.first().cloned() {
+                    tuples.push(first);
+                }
+                if t.add_edge_tuples(tuples).is_ok() {
+                    variants.push(("louvain_communities(graph from add_edge_tuples)", t));
+                }
+            }
+            {
+                // a selection that is a small part (under a fifth) of a larger graph
+                let mut h = case.build();
+                for i in 0..(4 * case.n() + 3) {
+                    h.add_node(graphrs::Node::from_name(format!("~pad{}", i)));
+                }
+                let mut sel: Vec<String> = case.names.clone();
+                sel.reverse();
+                variants.push(("louvain_communities(graph from get_subgraph)", h.get_subgraph(&sel)));
+            }
+            variants.push(("louvain_communities(graph from set_all_edge_weights)", g.set_all_edge_weights(2.0)));
+            if let Ok(r) = g.reverse() {
+                variants.push(("louvain_communities(graph from reverse)", r));
+            }
+            if let Ok(s1) = g.to_single_edges() {
+                variants.push(("louvain_communities(graph from to_single_edges)", s1));
+            }
+            for (tag, vg) in variants {
+                graphrs::verif_hooks::take_ticks("louvain_sweep");
+                let w = weighted && vg.edges_have_weight();
+                let r3 = guard("louvain_communities", || louvain::louvain_communities(&vg, w, Some(gamma), threshold, Some(seed)));
+                let canon3 = match r3 {
+                    Ok(Ok(l)) => canon_levels(&[l]),
+                    Ok(Err(e)) => format!("error:{}", err_name(&e.kind)),
+                    Err(c) => format!("panic:{}", c.class()),
+                };
+                out.push((tag, canon3, desc.clone()));
+            }
             graphrs::verif_hooks::set_budget("louvain_sweep", None);
             ctx::count("reach:louvain-on-tie-rich-graph");
         }
@@ -409,6 +545,24 @@ fn c17_results(case_kind: u64, rng: &mut Rng, idx: u64) -> Vec<(&'static str, St
                     }
                 }
                 add("dijkstra::all_pairs", format!("{:?}", m));
+            }
+            if case.n() > 0 {
+                // every source towards one target, distances only and with paths
+                let t0 = g.get_all_nodes()[case.n() / 3].name.clone();
+                let all: Vec<String> = g.get_all_nodes().iter().map(|x| x.name.clone()).collect();
+                for with_paths in [false, true] {
+                    if let Ok(Ok(ms)) = guard("dijkstra::multi_source", || dijkstra::multi_source(&g, weighted, all.clone(), Some(t0.clone()), None, false, with_paths)) {
+                        let mut m: BTreeMap<(String, String), (u64, Vec<Vec<String>>)> = BTreeMap::new();
+                        for (s, inner) in ms {
+                            for (tt, info) in inner {
+                                let mut p = info.paths.clone();
+                                p.sort();
+                                m.insert((s.clone(), tt), (info.distance.to_bits(), p));
+                            }
+                        }
+                        add(if with_paths { "dijkstra::multi_source(target)" } else { "dijkstra::multi_source(target,distances)" }, format!("{:?}", m));
+                    }
+                }
             }
             if case.n() > 0 {
                 let t = g.get_all_nodes()[case.n() / 2].name.clone();
